@@ -1,5 +1,5 @@
 (** Command dispatcher of the executable model. *)
-From RP2V Require Import Base.Prelude Model.Entry.
+From RP2V Require Import Base.Prelude Model.Entry Model.EntryL1.
 Open Scope Z_scope.
 
 Definition entry (cmd : Z) (args : list Z) : list Z :=
@@ -12,4 +12,8 @@ Definition entry (cmd : Z) (args : list Z) : list Z :=
   if cmd =? 13 then entry_events args else
   if cmd =? 30 then entry_computed args else
   if cmd =? 40 then entry_parse args else
+  if cmd =? 41 then entry_parse_full args else
+  if cmd =? 42 then entry_config args else
+  if cmd =? 43 then entry_options args else
+  if cmd =? 45 then entry_num11 args else
   [-999].
